@@ -92,7 +92,7 @@ func (c36) NewRun(plan *simrt.Source, job *harn.Job) harn.Run {
 		// the hash is asked for while the directory cannot be listed (an I/O error,
 		// or the directory moved away and back): what it returns then is not
 		// judged, but it must not disturb the hashes that follow
-		"readdir-fails", "dir-away",
+		"readdir-fails", "dir-away", "recase",
 		// the same process also serves another module, one that registers .tpl as a
 		// class-file extension: a step there, judged by that module's own rules
 		"other-module", "other-module"}
@@ -413,6 +413,23 @@ func (r *c36run) runSeq(sim *simrt.Sim) {
 				break
 			}
 			os.Rename(p, filepath.Join(pkgDir, st.Name2)) // keeps the mtime, like mv
+		case "recase": // the same name in another case is another name (git mv foo.go Foo.go)
+			fi, err := os.Lstat(p)
+			b := []byte(st.Name)
+			for k := range b {
+				if b[k] >= 'a' && b[k] <= 'z' {
+					b[k] -= 32
+					break
+				} else if b[k] >= 'A' && b[k] <= 'Z' {
+					b[k] += 32
+					break
+				}
+			}
+			if _, e2 := os.Lstat(filepath.Join(pkgDir, string(b))); err != nil || !fi.Mode().IsRegular() || e2 == nil || string(b) == st.Name {
+				did = "skip"
+				break
+			}
+			os.Rename(p, filepath.Join(pkgDir, string(b)))
 		case "delete":
 			fi, err := os.Lstat(p)
 			if err != nil || !fi.Mode().IsRegular() {
